@@ -155,3 +155,20 @@ pub fn read_back<S: IndexedFull>(
     }
     ReadBack::Equal
 }
+
+/// Model-free complete read: list everything and dump every file; Err((where, error)).
+pub fn read_complete<S: IndexedFull>(repo: &Repository<S>, snap: &SnapshotFile) -> Result<usize, (String, String)> {
+    let listed = list_snapshot(repo, snap)?;
+    let mut n = 0;
+    for (path, node) in &listed {
+        if node.is_file() {
+            let mut out = Vec::new();
+            repo.dump(node, &mut out).map_err(|e| (format!("dump `{}`", path.display()), e.display_log()))?;
+            if out.len() as u64 != node.meta.size {
+                return Err((format!("dump `{}`", path.display()), format!("dumped {} bytes but node size is {}", out.len(), node.meta.size)));
+            }
+            n += 1;
+        }
+    }
+    Ok(n)
+}
